@@ -478,7 +478,7 @@ CLAIMED.update(
             "with a branch type are exactly COND_BRANCH_NAMES and the none-based mapping covers the none-based jumps; predicate callbacks receive (left, right) / (exception, match type) / the tested value; every "
             "predicate visitor registers its predicate, visit_node dispatches to all of them, ends in the bool-based visitor and returns early only for jump-less blocks, excluded code and unconditional jumps; "
             "both outcomes of every predicate are goals, BranchGoal.is_covered reads the distance map of its own outcome, given_exception_matches agrees with `except` for classes, tuples and nested tuples; "
-            "temporarily_disable/enable restore the tracing state in a finally and the callbacks compute under temporarily_disable. "
+            "temporarily_disable/enable restore the tracing state in a finally and the callbacks compute under temporarily_disable; reset() leaves a recording trace that holds nothing recorded before, init_trace / store_import_trace start from the import trace only. "
             "Not decided: that the predicate's basic block executes once per evaluation, short-circuit structure, exception edges, the bytecode library's is_cond_jump().",
             "Trusts the jump table JUMPS_WHEN (when each conditional-jump opcode jumps, from the dis documentation), sa/checks/_instr.py and sa/engine/peval.py.",
             "DESIGN.md §3 C03",
@@ -493,7 +493,7 @@ CLAIMED.update(
             "Decides the plumbing clauses for all five supported versions: the id a probe reports is the one register_line returned for (code object, file of the code object, line of the probed instruction) and the probe "
             "is spliced in front of that instruction; should_instrument_line (interpreted from source through the version inheritance chain) never selects an instruction without a line, selects a new line, does not "
             "select the same line twice in a row and skips the function prologue; the probe loop considers every instruction of a block (no break / return; continue only for excluded or line-less instructions); every "
-            "tracer callback reachable from instrumented code records only while tracing is enabled; every InstrumentationMethodCall names an existing tracer / provider method with that arity, forwarded in order; "
+            "tracer callback reachable from instrumented code records only while tracing is enabled; every InstrumentationMethodCall names an existing tracer / provider method with that arity, forwarded in order by a proxy method that does nothing but forward; "
             "compute_line_coverage is |covered_line_ids| / |existing_lines| and covered_line_ids is written by track_line_visit and merge only. "
             "Not decided: that `first instruction of a line within a basic block` reports exactly the interpreter's LINE events for arbitrary control flow (a fact about CPython's line table), nor the END_FOR / POP_TOP skip lists.",
             "Trusts sa/checks/_instr.py (call-site extraction) and sa/engine/peval.py.",
@@ -511,7 +511,7 @@ CLAIMED.update(
             "read the table they are named for; for the running interpreter stack_effects (interpreted through the version chain) has the net effect dis.stack_effect reports for every opcode, argument class and jump flag "
             "(IMPORT_NAME, documented in the repository, aside); check_explicit_data_dependency satisfies eight gen/kill laws over representative contexts (complete definition kills exactly its pending use; partial "
             "definition is a dependency and kills nothing; unrelated definition is none; object creation kills the address use; attribute definitions are matched per object; globals per file); checked lines are the "
-            "lines of slice instructions and the slice grows from the traversal state only. "
+            "lines of slice instructions and the slice grows from the traversal state only; track_attribute_access receives the object the instruction reads or modifies (symbolic stack); no container of the slicer is keyed by a bare basic-block node across code objects. "
             "Not decided: completeness of the traversal (stack simulation across frames and exceptions, inlined comprehensions and in-place container construction are outside what the stack simulation models).",
             "Trusts dis.stack_effect / the opcode module of the interpreter that runs the check, sa/checks/_instr.py and sa/engine/peval.py.",
             "DESIGN.md §3 C09",
@@ -527,7 +527,7 @@ CLAIMED.update(
             "excluded conditional statement and line-less jump; after an excluded block is removed every predecessor is connected to every successor by an unlabelled edge (also to a successor that keeps a back edge) and "
             "the entry reaches every block; get_control_dependencies looks through unlabelled edges and terminates on cycles, is_control_dependent_on_root follows unlabelled edges only; over five representative shapes "
             "(nested, sequential + loop, excluded block in the middle, excluded block in front of a loop header, handler block) _build_graph does not fail, leaves no goal without incoming edge outside the roots, and "
-            "_GoalsManager.update, driven by an archive that covers what it is handed, makes every goal current while an uncovered goal stays current and withholds its children. "
+            "_GoalsManager.update, driven by an archive that covers what it is handed, makes every goal current while an uncovered goal stays current and withholds its children; a basic-block node (equal by index only) keys a mapping only among the blocks of one code object. "
             "Not decided: that these shapes exhaust the CDGs a module can produce (they are representatives), nor ControlDependenceGraph.compute itself (C06).",
             "Trusts networkx (the repository's own dependency, used to hold the representative graphs) and sa/engine/peval.py.",
             "DESIGN.md §3 C07",
